@@ -167,7 +167,18 @@ func compileScript(
 	script []byte,
 	opts *CompilerOptions,
 	modStore *moduleStore,
-) (*Bytecode, error) {
+) (bc *Bytecode, err error) {
+	// an instruction whose operand exceeds the capacity of the bytecode format
+	// cannot be emitted, report it as an error.
+	defer func() {
+		if r := recover(); r != nil {
+			ce, ok := r.(*capacityError)
+			if !ok {
+				panic(r)
+			}
+			bc, err = nil, ce
+		}
+	}()
 
 	fileSet := parser.NewFileSet()
 	moduleName := opts.ModulePath
@@ -199,12 +210,24 @@ func compileScript(
 		return nil, err
 	}
 
-	bc := compiler.Bytecode()
+	bc = compiler.Bytecode()
 	if bc.Main.NumLocals > maxNumLocals {
 		return nil, ErrSymbolLimit
 	}
 	return bc, nil
 }
+
+// capacityError is raised while emitting an instruction that does not fit the
+// operand widths of the bytecode format.
+type capacityError struct {
+	err error
+}
+
+func (e *capacityError) Error() string {
+	return "Compile Error: bytecode capacity exceeded: " + e.err.Error()
+}
+
+func (e *capacityError) Unwrap() error { return e.err }
 
 // SetGlobalSymbolsIndex sets index of a global symbol. This is only required
 // when a global symbol is defined in SymbolTable and provided to compiler.
@@ -456,7 +479,7 @@ func (c *Compiler) changeOperand(opPos int, operand ...int) {
 	inst := make([]byte, 0, 8)
 	inst, err := MakeInstruction(inst, op, operand...)
 	if err != nil {
-		panic(err)
+		panic(&capacityError{err})
 	}
 	c.replaceInstruction(opPos, inst)
 }
@@ -535,7 +558,7 @@ func (c *Compiler) emit(node parser.Node, opcode Opcode, operands ...int) int {
 	inst := make([]byte, 0, 8)
 	inst, err := MakeInstruction(inst, opcode, operands...)
 	if err != nil {
-		panic(err)
+		panic(&capacityError{err})
 	}
 
 	pos := c.addInstruction(inst)
